@@ -155,7 +155,8 @@ def exec_recovery(case):
 def fallback_spec(draw):
     d = draw(st.integers(1, 4))
     return {"d": d, "K": draw(st.integers(1, 3)), "per": draw(st.integers(4 * d + 4, 80)), "seed": draw(st.integers(0, 2**31 - 1)),
-            "bad": draw(st.sampled_from(["nan", "inf", "-inf", "real"])), "api": draw(st.sampled_from(["particles", "global"])),
+            "bad": draw(st.sampled_from(["nan", "inf", "-inf", "real"])), "api": draw(st.sampled_from(["particles", "global", "particles+n_modes"])),
+            "empty_label": draw(st.integers(0, 3)),
             "fallback": draw(st.sampled_from([1.0, 5.0, 1e6]))}
 
 
@@ -180,7 +181,16 @@ def exec_fallback(case):
     np.random.seed(case["seed"] % 2**31)
     modes.fit_mvstud = scripted
     try:
-        if case["api"] == "particles":
+        if case["api"] == "particles+n_modes":
+            import inspect
+
+            if "n_modes" not in inspect.signature(ModeStatistics.from_particles).parameters:
+                return {"nontrivial": False, "classes": ["api:n_modes-not-available"]}
+            # as the trainer calls it: one mode per fitted label, one of which has no particle at all
+            e = case["empty_label"] % (K + 1)
+            lab2 = np.where(labels >= e, labels + 1, labels)
+            ms = lib_call(ModeStatistics.from_particles, u, w, lab2, dof_fallback=case["fallback"], n_modes=K + 1, what="from_particles(n_modes)")
+        elif case["api"] == "particles":
             ms = lib_call(ModeStatistics.from_particles, u, w, labels, dof_fallback=case["fallback"], what="from_particles")
         else:
             ms = lib_call(ModeStatistics.from_global, u, w, dof_fallback=case["fallback"], what="from_global")
@@ -188,7 +198,7 @@ def exec_fallback(case):
         modes.fit_mvstud = real
     dof = np.asarray(ms.degrees_of_freedom, dtype=float)
     if not np.all(np.isfinite(dof)) or np.any(dof <= 0):
-        raise Violation(f"ModeStatistics.{'from_' + case['api']} exposes degrees of freedom {dof.tolist()} when the fit returned "
+        raise Violation(f"ModeStatistics.from_{case['api']} exposes degrees of freedom {dof.tolist()} when the fit returned "
                         f"{case['bad']}", sig={"kind": "dof-not-finite"})
     if bad is not None and not np.all(dof == case["fallback"]):
         raise Violation(f"non-finite dof replaced by {dof.tolist()}, configured fallback is {case['fallback']}", sig={"kind": "dof-fallback-value"})
